@@ -125,7 +125,7 @@ pub fn run_c16(run: &mut Run) -> Stats {
     let tier = run.tier;
     let kmax = tier.pick(3, 4);
     let prop = run.prop.clone();
-    run.rule = format!("absent header; every list of 0..{kmax} elements over distinct codings {{gzip, identity, *, br, deflate, x-gzip}} x every weight in {{none, 0, 0., 0.0, 0.000, 0.001, 0.5, 0.999, 1, 1., 1.000}} per element x 4 whitespace styles (',' / ', ' / ' ; ' / tabs), compared with an independent evaluator of RFC 7231 5.3.4 written from the statement (qualities as integers in thousandths, identity default = least-preferred acceptable); lists with a repeated coding, and every byte string of length <= n over {{g z * ; q = 0 1 . , SP 0xFF}} and every weight string of length <= 6 over {{0 1 9 .}}: no panic (and agreement wherever the evaluator has a verdict). non-trivial = distinct header values with a verdict from the evaluator");
+    run.rule = format!("absent header; every list of 0..{kmax} elements over distinct codings {{gzip, identity, *, br, deflate, x-gzip}} x every weight in {{none, 0, 0., 0.0, 0.000, 0.001, 0.5, 0.999, 1, 1., 1.000}} per element x 4 whitespace styles (',' / ', ' / ' ; ' / tabs), compared with an independent evaluator of RFC 7231 5.3.4 written from the statement (qualities as integers in thousandths, identity default = least-preferred acceptable); lists of up to 42 distinct codings with the deciding elements first and last; lists with a repeated coding, and every byte string of length <= n over {{g z * ; q = 0 1 . , SP 0xFF}} and every weight string of length <= 6 over {{0 1 9 .}}: no panic (and agreement wherever the evaluator has a verdict). non-trivial = distinct header values with a verdict from the evaluator");
     let mut outer: Vec<Vec<usize>> = Vec::new();
     for k in 0..=kmax {
         outer.extend(lists_k(k));
@@ -168,6 +168,28 @@ pub fn run_c16(run: &mut Run) -> Stats {
             }
         }
     }
+    // long lists: up to 40 other (distinct) codings before / between the elements that decide
+    for n in 0..=40usize {
+        let others: Vec<String> = (0..n).map(|i| if i % 3 == 0 { format!("c{i};q=0.{}", i % 10) } else { format!("coding-{i}") }).collect();
+        for (head, tail) in [
+            ("*", "gzip;q=0"),
+            ("*;q=0.5", "identity;q=0.9"),
+            ("identity;q=0.5", "gzip"),
+            ("gzip;q=0.2", "identity;q=0.3"),
+            ("gzip;q=0.3", "identity;q=0.2"),
+            ("identity;q=0", "*;q=0.001"),
+            ("br", "gzip;q=0.001"),
+        ] {
+            let mut l = vec![head.to_string()];
+            l.extend(others.iter().cloned());
+            l.push(tail.to_string());
+            for sep in [",", ", "] {
+                let h = l.join(sep);
+                st.nontrivial(&h);
+                judge(Some(h.as_bytes()), &mut st, (1 << 49) + n as u64, &prop);
+            }
+        }
+    }
     // weight strings
     let wa = [b'0', b'1', b'9', b'.'];
     for len in 0..=6u32 {
@@ -192,7 +214,7 @@ pub fn run_c16(run: &mut Run) -> Stats {
     total.merge(st);
     // arbitrary short strings
     let alpha = [b'g', b'z', b'*', b';', b'q', b'=', b'0', b'1', b'.', b',', b' ', 0xffu8];
-    let maxlen = tier.pick(5, 6);
+    let maxlen = tier.pick(5, 7);
     let mut nstr = 0u64;
     for l in 0..=maxlen {
         nstr += 12u64.pow(l);
